@@ -857,7 +857,7 @@ Qed.
 Lemma udn_core_out (X : Z -> Prop) st n pxo a s' : user_delete_node_core st n pxo = Ok a s' -> X n ->
   forall m, action_nodes a m -> X m.
 Proof.
-  unfold user_delete_node_core. intros H Hx. destruct (negb (has_node st n)); [discriminate|].
+  unfold user_delete_node_core. intros H Hx. destruct (px_check st pxo); [discriminate|]. destruct (negb (has_node st n)); [discriminate|].
   ok_step H acts1 s1 H1. apply (udn_preds_out X) in H1; [|apply an_in_nil].
   ok_step H acts2 s2 H2. apply (udn_succs_out X) in H2; [|exact H1].
   ok_step H ao s3 H3. destruct ao as [acts3 orphans].
